@@ -549,6 +549,51 @@ def work_quartic(chunk):
     return acc
 
 
+def work_partial_rows(chunk):
+    """functions that overflow or leave their domain at the largest default steps in SOME coordinates only: the entries
+    with some invalid rows must still be resolved from their valid rows (closed-form Hessians)"""
+    import numdifftools as nd
+    acc = fw.Acc()
+    for fname, method in chunk:
+        if fname == 'overflow':
+            x = np.array([1.0, 0.4, 2.0])
+
+            def f(t):
+                return np.exp(t[0] ** 8) + np.sin(t[1]) * t[2] + t[0] * t[1]
+            e = math.exp(1.0)
+            H = np.array([[e * (56 + 64), 1.0, 0.0], [1.0, -math.sin(0.4) * 2.0, math.cos(0.4)], [0.0, math.cos(0.4), 0.0]])
+        else:
+            x = np.array([0.7, 0.2, -1.2])
+
+            def f(t):
+                return t[0] * np.log(t[1]) + np.exp(0.3 * t[0] - 0.2 * t[2]) + t[2] * t[2] * t[1]
+            ee = math.exp(0.3 * x[0] - 0.2 * x[2])
+            H = np.array([[0.09 * ee, 1 / x[1], -0.06 * ee], [1 / x[1], -x[0] / x[1] ** 2, 2 * x[2]],
+                          [-0.06 * ee, 2 * x[2], 0.04 * ee + 2 * x[1]]])
+        tol = 1e-7 if method in ('central', 'central2') else 2e-3
+        for entry, want in (('Hessian', H), ('Hessdiag', np.diag(H))):
+            fw.fresh_library_state()
+            prob = None
+            try:
+                with warnings.catch_warnings():
+                    warnings.simplefilter('ignore')
+                    with np.errstate(all='ignore'):
+                        val = np.asarray(getattr(nd, entry)(f, method=method)(x))
+                rel = np.abs(val - want) / np.maximum(1.0, np.abs(want)) if val.shape == want.shape else np.array([np.inf])
+                if not np.all(rel <= tol):
+                    prob = 'max relative error %.3g > %.3g; got %r, closed form %r' % (float(np.nanmax(np.where(np.isnan(rel), np.inf, rel))), tol, val.tolist(), want.tolist())
+            except Exception as e_:      # noqa: BLE001
+                prob = 'raised %s: %s' % (type(e_).__name__, e_)
+            acc.case(('partial-rows', fname, method, entry), nontrivial=True, cell='partial-rows/%s' % fname, outcome=prob is None)
+            if prob:
+                acc.violation('C04:%s:envelope:%s:entries-with-some-invalid-rows' % (entry, method),
+                              dict(kind='partial-rows', f=fname, method=method),
+                              '%s(f, method=%r)(%r), f = %s: %s' % (entry, method, x.tolist(),
+                                                                     'exp(x0^8) + sin(x1) x2 + x0 x1' if fname == 'overflow' else
+                                                                     'x0 log(x1) + exp(.3 x0 - .2 x2) + x2^2 x1', prob), 3)
+    return acc
+
+
 def work_buffered(chunk):
     """f returns its value in a length-1 array - a fresh one, the SAME array object on every call (a preallocated result
     buffer), or a read-only one: Hessian / Hessdiag of the quartic must match the closed form in every case."""
@@ -609,6 +654,7 @@ def run(ctx):
     # heavy items (large n) first so that the pool drains evenly
     its.sort(key=lambda it: -it[1])
     acc = ctx.pmap(work, its, chunk=1, tier=ctx.tier)
+    acc.merge(ctx.pmap(work_partial_rows, [(fn, m) for fn in ('overflow', 'domain') for m in REAL_STEP], chunk=1))
     acc.merge(ctx.pmap(work_buffered, [(n, m) for n in (1, 2, 3) for m in METHODS], chunk=2))
     acc.merge(ctx.pmap(work_quartic, [(n, xk, m) for n in (1, 2, 3, 4) for xk in ('mixed', 'pos') for m in METHODS], chunk=2))
     for it in (its[0], its[len(its) // 3], its[len(its) // 2], its[-1]):
@@ -651,6 +697,10 @@ def run(ctx):
 # ---------------------------------------------------------------------------------------------
 
 def replay(case):
+    if case.get('kind') == 'partial-rows':
+        a = work_partial_rows([(case['f'], case['method'])])
+        bad = [r['detail'] for k, (n, recs) in a.viol.items() for r in recs]
+        return not bad, '%r -> %s' % (case, bad or 'resolved')
     if case.get('kind') == 'outputform':
         a = work_buffered([(case['n'], case['method'])])
         bad = [r['detail'] for k, (n, recs) in a.viol.items() for r in recs]
